@@ -19,6 +19,13 @@
                                             Matrix::partition(rp, cp) of a rows×cols matrix holding
                                             its offsets (parts[kr·(|cp|+1)+kc]) as the source of
                                             further views                              → ok size=RxC
+    `prep=transpose_mut` on `@ tmatrix`: the tensor is transposed in place after it is filled
+    consume <iter|add|sub|mul|tmul|neg|scalar|diag|det>
+                                            a consumer of the current view (an iterator flavour / operator /
+                                            Display / the tensor side / determinant, chosen by via=) over the same
+                                            stack with signed elements: the row-major elements a, 2a, a − index,
+                                            a·aᵀ, aᵀ·a, −a, 3a+1 (RxC:<ints>), the diagonal (n:<ints>), the
+                                            determinant (some(d) | none for a non-square view)
     (all leaves take fill=<id|zero|const|parity>: the element stored at offset k is k, 0, 7, k mod 2)
     roundtrip [<n1> <n2>]                   … with TensorRefMatrix::with_names(current, [n1, n2])
     layout                                  data_layout()                       → row_major | column_major | other
@@ -69,6 +76,10 @@ structure State where
   specParts : List MatrixPart := []   -- specification
   live : Option (Live Nat) := none
   fill : String := "id"
+  /-- the tensor behind the leaf was transposed in place after it was filled: `(rows, columns)`
+      of the tensor as it is now; the element stored at offset `k` is the one filled in at offset
+      `(k % columns) * rows + k / columns` -/
+  perm : Option (Nat × Nat) := none
 
 def init : State := {}
 
@@ -80,6 +91,10 @@ def both (spec model : String) : String :=
 /-- the element a leaf stores at offset `k` -/
 def fillAt (fill : String) (k : Nat) : Nat :=
   if fill = "zero" then 0 else if fill = "const" then 7 else if fill = "parity" then k % 2 else k
+
+/-- the element the leaf of the current case stores at offset `k` -/
+def elemOf (s : State) (k : Nat) : Nat :=
+  fillAt s.fill (match s.perm with | some (r, c) => (k % c) * r + k / c | none => k)
 
 def parseRange (s : String) : Option IndexRange :=
   match s.splitOn ":" with
@@ -105,6 +120,41 @@ def install (s : State) (e : MExpr) (names : String × String := ("row", "column
     let modelAns := s!"ok size={v.view.rows}x{v.view.columns}"
     let ok := if e.Buildable then both specAns modelAns else "MODEL-SPEC-DISAGREE not-buildable"
     ({ s with expr := some e, view := some v }, ok)
+
+/-! ### consumers of a view: what they must answer, as functions of the row-major elements -/
+
+def showInts (l : List Int) : String := if l.isEmpty then "-" else ",".intercalate (l.map toString)
+
+/-- Laplace expansion along the first row -/
+def detLaplace : Nat → List (List Int) → Int
+  | 0, _ => 1
+  | n + 1, m =>
+    let first := m.headD []
+    (List.range (n + 1)).foldl (fun acc j =>
+      let sign : Int := if j % 2 = 0 then 1 else -1
+      acc + sign * first.getD j 0 * detLaplace n (m.tail.map fun row => row.eraseIdx j)) 0
+
+def consumeAnswer (kind : String) (rows cols : Nat) (a : List Int) : String :=
+  let el := fun (i j : Nat) => a.getD (i * cols + j) 0
+  let grid := fun (r c : Nat) (f : Nat → Nat → Int) =>
+    s!"{r}x{c}:" ++ showInts ((List.range r).flatMap fun i => (List.range c).map fun j => f i j)
+  if kind = "iter" then grid rows cols el
+  else if kind = "add" then grid rows cols fun i j => 2 * el i j
+  else if kind = "sub" then grid rows cols fun i j => el i j - Int.ofNat (i * cols + j)
+  else if kind = "neg" then grid rows cols fun i j => - el i j
+  else if kind = "scalar" then grid rows cols fun i j => 3 * el i j + 1
+  else if kind = "mul" then
+    grid rows rows fun i k => (List.range cols).foldl (fun acc j => acc + el i j * el k j) 0
+  else if kind = "tmul" then
+    grid cols cols fun i k => (List.range rows).foldl (fun acc j => acc + el j i * el j k) 0
+  else if kind = "diag" then
+    let n := min rows cols
+    s!"{n}:" ++ showInts ((List.range n).map fun k => el k k)
+  else if kind = "det" then
+    if rows = cols then
+      s!"some({detLaplace rows ((List.range rows).map fun i => (List.range cols).map fun j => el i j)})"
+    else "none"
+  else "bad-op"
 
 def scanSpec (e : MExpr) : List Nat :=
   (List.range e.size.1).flatMap fun i => (List.range e.size.2).filterMap fun j => e.cell i j
@@ -227,9 +277,13 @@ def step (s : State) (toks : List String) : State × String :=
     -- tensor (in the order it is accessed)
     match parseShape shapeS with
     | some [(_, l1), (_, l2)] =>
-      let st : State := { fill := (optArg "fill" rest).getD "id" }
-      if (optArg "order" rest).getD "direct" = "swapped" then install st (.leafCM l2 l1)
-      else install st (.leaf l1 l2)
+      -- `prep=transpose_mut`: the tensor was transposed in place after it was filled — it now
+      -- has the lengths exchanged and its data rearranged
+      let tr := (optArg "prep" rest).getD "" = "transpose_mut"
+      let (t1, t2) := if tr then (l2, l1) else (l1, l2)
+      let st : State := { fill := (optArg "fill" rest).getD "id", perm := if tr then some (t1, t2) else none }
+      if (optArg "order" rest).getD "direct" = "swapped" then install st (.leafCM t2 t1)
+      else install st (.leaf t1 t2)
     | _ => ({}, "bad-op")
   | "layout" :: _ =>
     match s.expr with
@@ -242,7 +296,7 @@ def step (s : State) (toks : List String) : State × String :=
     match s.expr with
     | none => (s, "no-view")
     | some e =>
-      let cells := (scanSpec e).map (fillAt s.fill)
+      let cells := (scanSpec e).map (elemOf s)
       let (rows, cols) := e.size
       let lay : String → MLayout := fun t =>
         if t = "cm" then .columnMajor else if t = "rm" then .rowMajor else e.layout
@@ -308,25 +362,33 @@ def step (s : State) (toks : List String) : State × String :=
         else install s (.viaTensor e) (n1, n2)
       | _ => install s (.viaTensor e)
     | _, _ => (s, "no-view")
+  | "consume" :: kind :: _ =>
+    match s.expr, s.view with
+    | some e, some v =>
+      let (rows, cols) := e.size
+      let specA : List Int := (scanSpec e).map fun k => Int.ofNat (elemOf s k)
+      let modelA : List Int := (scanModel v).filterMap fun | .ok (some k) => some (Int.ofNat (elemOf s k)) | _ => none
+      (s, both (consumeAnswer kind rows cols specA) (consumeAnswer kind v.view.rows v.view.columns modelA))
+    | _, _ => (s, "no-view")
   | "mget" :: rS :: cS :: _ =>
     match s.expr, s.view, rS.toNat?, cS.toNat? with
     | some e, some v, some r, some c =>
-      (s, both (showOpt ((e.cell r c).map (fillAt s.fill)))
-               (showOutcome (fun o => showOpt (o.map (fillAt s.fill))) (v.view.get r c)))
+      (s, both (showOpt ((e.cell r c).map (elemOf s)))
+               (showOutcome (fun o => showOpt (o.map (elemOf s))) (v.view.get r c)))
     | none, _, _, _ => (s, "no-view")
     | _, _, _, _ => (s, "bad-op")
   | "uget" :: rS :: cS :: _ =>
     match s.expr, s.view, rS.toNat?, cS.toNat? with
     | some e, some v, some r, some c =>
-      (s, both (match e.cell r c with | some i => toString (fillAt s.fill i) | none => "out-of-contract")
-               (showOutcome (fun i => toString (fillAt s.fill i)) (v.uget r c)))
+      (s, both (match e.cell r c with | some i => toString (elemOf s i) | none => "out-of-contract")
+               (showOutcome (fun i => toString (elemOf s i)) (v.uget r c)))
     | none, _, _, _ => (s, "no-view")
     | _, _, _, _ => (s, "bad-op")
   | "scan" :: _ =>
     match s.expr, s.view with
     | some e, some v =>
-      (s, both s!"{e.size.1}x{e.size.2}:{showIds ((scanSpec e).map (fillAt s.fill))}"
-               (showScanModel v (fillAt s.fill)))
+      (s, both s!"{e.size.1}x{e.size.2}:{showIds ((scanSpec e).map (elemOf s))}"
+               (showScanModel v (elemOf s)))
     | _, _ => (s, "no-view")
   | "set" :: rS :: cS :: _ =>
     -- a write through the view changes exactly the designated cell of the leaf
